@@ -2,7 +2,7 @@
 import os
 import re
 
-from vlib import cligen, core, pkgrun, sexp
+from vlib import cligen, clileg, core, pkgrun, sexp
 
 PROP = "C16"
 LEAN_MODULES = ["ShootVerif.Props.C16"]
@@ -393,6 +393,8 @@ def run(ctx, obl):
             if c["sexp"] == v.get("case"):
                 v["detail"] = c.get("detail")
                 v["sources"] = c["files"]
+    # in-process differential: the model's go:generate line recogniser vs the real findCmdLine (tie only)
+    clileg.run_lines(ctx, res, ctx.n(5000, 60000))
     res.rule = ("%d shaped cases (every selection mode x go:generate placement x the four sub-commands, type parameters named like "
                 "a type, grouped declarations) then seeded random ones: 2-4 files mixing eligible declarations with _-prefixed / "
                 "unexported / generic structs, aliases, non-integer and integer types with and without constants (typed, carried, "
